@@ -1144,6 +1144,7 @@ tp_shutdown_wait(tp_p tp) {
 	size_t err_cnt = 0;
 	/* 1 sec = 1000000000 nanoseconds. */
 	struct timespec rqts = { .tv_sec = 0, .tv_nsec = 100000000 };
+	static const pthread_t pt_none; /* All zero: no thread to join. */
 
 	if (NULL == tp)
 		return (EINVAL);
@@ -1153,11 +1154,12 @@ tp_shutdown_wait(tp_p tp) {
 		return (EDEADLK);
 
 	for (size_t i = 0; i < tp->s.threads_max; i ++) {
-		if (TP_THREAD_STATE_STOP == tp->threads[i].state)
-			continue;
+		if (0 == memcmp(&tp->threads[i].pt_id, &pt_none, sizeof(pthread_t)))
+			continue; /* Never created, attached caller or already joined. */
 		error = pthread_join(tp->threads[i].pt_id, NULL);
 		switch (error) {
 		case 0: /* No error. */
+			memset(&tp->threads[i].pt_id, 0x00, sizeof(pthread_t));
 			break;
 		case EDEADLK: /* Should not happen, checked by tp_thread_is_tp_thr(). */
 			return (error);
@@ -1240,6 +1242,7 @@ tp_threads_create(tp_p tp, const int skip_first) {
 		    tp_thread_proc, tpt)) {
 		} else {
 			tpt->state = TP_THREAD_STATE_STOP;
+			memset(&tpt->pt_id, 0x00, sizeof(pthread_t)); /* Nothing to join. */
 		}
 	}
 	return (0);
@@ -1262,6 +1265,7 @@ tp_thread_attach_first(tp_p tp) {
 	tpt->pt_id = pthread_self();
 
 	tp_thread_proc(tpt);
+	memset(&tpt->pt_id, 0x00, sizeof(pthread_t)); /* Caller's own thread: never joined. */
 
 	return (0);
 }
@@ -1334,7 +1338,7 @@ tp_thread_proc(void *data) {
 	syslog(LOG_INFO, "%s thread exited...", thr_name);
 	pthread_setspecific(tp_tls_key_tpt, NULL);
 	pthread_self_name_set(NULL);
-	memset(&tpt->pt_id, 0x00, sizeof(pthread_t));
+	/* Keep pt_id: a thread that already exited must still be joined. */
 	tpt->state = TP_THREAD_STATE_STOP; /* Reset state on exit. */
 	tpt->tp->threads_cnt --;
 
